@@ -36,8 +36,12 @@ pub struct
 //@ end
 
 //@ extract struct src/node.rs Node
+//@ head
+#[derive(Clone)]
 //@ end
 //@ extract struct src/edge.rs Edge
+//@ head
+#[derive(Clone)]
 //@ end
 //@ extract struct src/graph/mod.rs Graph pubfields
 //@ end
